@@ -25,3 +25,5 @@ def run(ctx, res):
     msm.rule_siblings(prog, res)
     msm.rule_decode(prog, res)
     sorting.rule_sort(prog, res)
+    import bitio
+    bitio.import_transport(prog, res, signed=False)
